@@ -88,3 +88,81 @@ pub fn near_block_edge(len: usize) -> bool {
     let r = len % 136;
     len >= 135 && (r == 0 || r == 1 || r == 135)
 }
+
+// ---------------------------------------------------------------------------------------------
+// I/O behaviour classes: the byte APIs take any `Read` / `Write`; a reader may return short reads and
+// a writer may accept fewer bytes than offered. The style is chosen per case (from the case content)
+// by the property and applies to every call made through `rd` / `Sink` on that thread.
+// ---------------------------------------------------------------------------------------------
+
+thread_local! {
+    static IO_STYLE: std::cell::Cell<u8> = const { std::cell::Cell::new(0) };
+}
+
+/// 0 = contiguous (Cursor-like), 1 = one byte per call, 2 = up to 7 bytes, 3 = up to 33 bytes
+pub fn set_io_style(style: u8) {
+    IO_STYLE.with(|s| s.set(style % 4));
+}
+
+pub fn io_style() -> u8 {
+    IO_STYLE.with(|s| s.get())
+}
+
+fn io_step() -> usize {
+    match io_style() {
+        1 => 1,
+        2 => 7,
+        3 => 33,
+        _ => usize::MAX,
+    }
+}
+
+/// a reader over `data` that hands out at most `step` bytes per call
+pub struct Trickle {
+    data: Vec<u8>,
+    pos: usize,
+    step: usize,
+}
+
+impl std::io::Read for Trickle {
+    fn read(&mut self, buf: &mut [u8]) -> std::io::Result<usize> {
+        let n = buf.len().min(self.step).min(self.data.len() - self.pos);
+        buf[..n].copy_from_slice(&self.data[self.pos..self.pos + n]);
+        self.pos += n;
+        Ok(n)
+    }
+}
+
+/// reader for an input buffer in the current style
+pub fn rd(data: &[u8]) -> Trickle {
+    Trickle { data: data.to_vec(), pos: 0, step: io_step() }
+}
+
+/// a writer that accepts at most `step` bytes per `write` call (everything with `write_all`)
+pub struct Sink {
+    pub data: Vec<u8>,
+    step: usize,
+}
+
+impl Sink {
+    pub fn new() -> Self {
+        Sink { data: vec![], step: io_step() }
+    }
+}
+
+impl Default for Sink {
+    fn default() -> Self {
+        Self::new()
+    }
+}
+
+impl std::io::Write for Sink {
+    fn write(&mut self, buf: &[u8]) -> std::io::Result<usize> {
+        let n = buf.len().min(self.step);
+        self.data.extend_from_slice(&buf[..n]);
+        Ok(n)
+    }
+    fn flush(&mut self) -> std::io::Result<()> {
+        Ok(())
+    }
+}
